@@ -24,7 +24,43 @@ CANNOT_CYCLE = {
 }
 
 
-def node_role(b, op, depth=6):
+_CTX_FIELDS = {}
+
+
+def context_fields(ctx):
+    """the visitor's "current container" field(s), found by role: a field of the visitor itself to which a visit method assigns
+    `Some(<the visited declaration's own name>)` (today `current_from`; its name is not part of the rule)"""
+    key = id(ctx.prog)
+    if key in _CTX_FIELDS:
+        return _CTX_FIELDS[key]
+    out = set()
+    for b in ctx.prog.bodies.values():
+        if (b.f.get("impl") or {}).get("self") != VIS:
+            continue
+        for i, j, s0 in b.all_stmts():
+            if not (s0[0] == "=" and s0[1][0] == 1):
+                continue
+            fs = [x for x in s0[1][1] if isinstance(x, list) and x[0] == "f"]
+            if len(fs) != 1:
+                continue
+            s = s0
+            if s0[2][0] == "use" and s0[2][1][0] in ("cp", "mv") and not s0[2][1][1][1]:
+                d0 = b.single_def(s0[2][1][1][0])
+                if d0 and d0[0] == "stmt":
+                    s = ["=", s0[1], d0[3]]
+            if not (s[2][0] == "agg" and s[2][1].get("adt") == "core::option::Option" and s[2][1].get("variant") == "Some" and s[2][2]):
+                continue
+            p = op_place(s[2][2][0])
+            d = b.single_def(b.root(p)[0]) if p is not None else None
+            src = d[2].args[0] if d and d[0] == "call" and (d[2].callee or d[2].u or "").split("::")[-1] == "clone" and d[2].args else s[2][2][0]
+            if node_role(b, src, ctx_fields=())[0] == "declared":
+                out.add(fs[0][2])
+    _CTX_FIELDS.clear()
+    _CTX_FIELDS[key] = out
+    return out
+
+
+def node_role(b, op, depth=6, ctx_fields=("current_from",)):
     """classify the Id handed to add_node: 'declared' (the visited node's own name / the current container) or 'referenced'"""
     p = op_place(op)
     if p is None:
@@ -36,15 +72,15 @@ def node_role(b, op, depth=6):
         if (owners[0], names) in DECLARED:
             return "declared", "%s.%s" % (owners[0], ".".join(names))
         return "referenced", "%s.%s" % (owners[0], ".".join(names))
-    if "current_from" in names:
-        return "declared", "self.current_from"
+    if rt[0] == 1 and names and names[0] in ctx_fields:
+        return "declared", "self.%s" % names[0]
     if rt[0] != 2 and not names:
         # a binding produced by matching on a field: follow one more step
         d = b.single_def(rt[0])
         if d and d[0] == "stmt" and d[3][0] in ("ref", "use"):
             src = d[3][2] if d[3][0] == "ref" else op_place(d[3][1])
             if src is not None and depth:
-                return node_role(b, ["cp", src], depth - 1)
+                return node_role(b, ["cp", src], depth - 1, ctx_fields)
     if names:
         o = owners[0]
         return ("declared" if (o, names) in DECLARED and rt[0] == 2 else "referenced"), "%s.%s" % (o, ".".join(names))
@@ -55,6 +91,10 @@ def rule_orient(ctx, rep):
     r = rep.rule("R-C07-orient", "every add_edge on the declaration graph uses one orientation between the declared (containing) node and the "
                                  "referenced node, so a cycle through mixed constructs is a cycle in the graph", floor=7, floor_what="add_edge sites")
     sites = []
+    cf = tuple(sorted(context_fields(ctx)))
+    if not cf:
+        rep.error("R-C07-orient", "the visitor has no field that is set to the visited declaration's own name (the current container)")
+        return
     for b in sorted(ctx.prog.bodies.values(), key=lambda x: x.id):
         im = b.f.get("impl") or {}
         if im.get("self") != VIS:
@@ -68,7 +108,7 @@ def rule_orient(ctx, rep):
                 p = op_place(a)
                 d = b.single_def(b.root(p)[0]) if p else None
                 if d and d[0] == "call" and (d[2].callee or "").endswith("DeclarationsGraph::add_node"):
-                    roles.append(node_role(b, d[2].args[1]))
+                    roles.append(node_role(b, d[2].args[1], ctx_fields=cf))
                 else:
                     roles.append(("unknown", "?"))
             k = n[b.f["name"]] = n.get(b.f["name"], 0) + 1
